@@ -50,7 +50,7 @@ CHECKS.update({
 CHECKS.update({
  "C15": dict(ref="DESIGN.md 5/C15", engine="GribiReconcile",
    text="GribiReconcile defines the plan (add/replace/delete sets per table, over the union of network instances) from the package documentation; TLC checks on all pairs of RIBs built by bounded operation sequences (continuing from the target or from scratch, with target-only instances) that applying the plan through the GribiRIB actions in the documented order acknowledges every operation at once and converges; on the real code pairs of real RIBs are built, the real reconciler's operation sets are compared with the plan (as sets, ids base+1..base+n), applied to the real target in the documented order under RIB trace validation, and the result compared with the intended RIB.",
-   note="next-hop payloads with boolean leaves are excluded (known finding getBoolLeafDropped); local RIB targets only (the remote target wraps the same code over gRPC)"),
+   note="next-hop payloads with boolean leaves are excluded (known finding getBoolLeafDropped); plans are computed against the local target and, for comparison, against the same target through reconciler.RemoteRIB (client.Get + rib.FromGetResponses over an in-process server)"),
  "C17": dict(ref="DESIGN.md 5/C17", engine="GribiChk",
    text="GribiChk is the direct specification of each helper's verdict; TLC enumerates the bounded input space (GribiChk_MC: result lists, wants, option combinations, Get responses, error values, statuses) and every enumerated case plus seeded cases over larger domains (near-miss wants) is executed on the real helper with a capturing testing.TB; TLC compares each observed verdict with the specification; for the cached checker the specification is the property's relation (never passes where the plain one fails; equal when keys are unique).",
    note="a fatal failure and a non-fatal t.Error are both counted as failure; trusted: TLC, the capturing TB"),
